@@ -19,6 +19,9 @@ package db
 // channels / roles (valid or invalidated).  A Request records Authenticator.GetUser(name) ->
 // InheritedCollectionChannels / RoleNames, the documents listed by a since-0 changes request run as that user
 // (removal-only entries excluded) and the leaves the user may fetch by revision id (GetRev).
+// After a resync the DatabaseContext is closed and rebuilt on the same bucket: the REST API only resyncs an offline
+// database and taking it online again builds a new context (fresh channel and revision caches).  No request is made
+// while a write or the resync is in flight.
 // No assertion about the property is made here; TLC evaluates it on the trace (specs/Resync/Trace_Resync.tla).
 
 import (
@@ -180,10 +183,10 @@ func (x *vC18DB) close() {
 func (x *vC18DB) fatal(what string, err error) {
 	x.t.Fatalf("VERIF-FATAL %s scenario %s: %s: %v", x.name, x.prefix, what, err)
 }
-func (x *vC18DB) real(m string) string        { return x.prefix + m }
-func (x *vC18DB) model(r string) string       { return strings.TrimPrefix(r, x.prefix) }
-func (x *vC18DB) authr() *auth.Authenticator  { return x.db.Authenticator(x.ctx) }
-func vC18IsUser(m string) bool                { return strings.HasPrefix(m, "u") }
+func (x *vC18DB) real(m string) string       { return x.prefix + m }
+func (x *vC18DB) model(r string) string      { return strings.TrimPrefix(r, x.prefix) }
+func (x *vC18DB) authr() *auth.Authenticator { return x.db.Authenticator(x.ctx) }
+func vC18IsUser(m string) bool               { return strings.HasPrefix(m, "u") }
 func (x *vC18DB) accessName(m string) string {
 	if vC18IsUser(m) {
 		return x.real(m)
